@@ -7,7 +7,7 @@ for id in $IDS; do
   D=$(mktemp -d /tmp/pyvc_seed.XXXX)
   cp -r /repo/src $D/src
   if ! patch -s -p1 -d $D < seeded/$id/patch.diff >/dev/null 2>&1; then echo "$id PATCH-DOES-NOT-APPLY"; rm -rf $D; continue; fi
-  out=$(./check $id --src $D/src --no-evidence 2>&1)
+  out=$(./check ${id:0:3} --src $D/src --no-evidence 2>&1)
   code=$(echo "$out" | grep -oE "exit=[0-9]+" | tail -1)
   echo "$id $code $(echo "$out" | grep -E '^  obligation:' | sed 's/  obligation: //' | sort -u | tr '\n' ';' | cut -c1-400) $(echo "$out" | grep -cE '^VIOLATION.*no-failing-input-found' ) without-input / $(echo "$out" | grep -cE '^VIOLATION') violations"
   rm -rf $D
